@@ -21,29 +21,80 @@ def outcome_class(obs):
     return obs.split()[0]    # HANG / PANIC / CRASH / EXN / MISSING
 
 
-def big_inputs(rng_seed):
-    """large inputs for the promptness part (linear growth): nested parentheses, long label, many
-    declarations, long comment, deep type"""
+def rep(n, f, sep):
+    return sep.join(f(i) for i in range(n))
+
+
+# growth families: one construct repeated n times; parsing time must grow (at most) linearly in n
+FAMILIES = {
+    "decls": lambda n: rep(n, lambda i: "prc[p%d] : 1 = close self" % i, "\n"),
+    "types": lambda n: rep(n, lambda i: "type A%d = 1" % i, "\n"),
+    "funs": lambda n: rep(n, lambda i: "let f%d() : 1 = close self" % i, "\n"),
+    "names": lambda n: "prc[" + rep(n, lambda i: "a%d" % i, ",") + "] : 1 = close self",
+    "callargs": lambda n: "prc[a] : 1 = f(" + rep(n, lambda i: "a%d" % i, ",") + ")",
+    "params": lambda n: "let f(" + rep(n, lambda i: "a%d : 1" % i, ",") + ") : 1 = close self",
+    "assume": lambda n: "assuming " + rep(n, lambda i: "a%d : 1" % i, ","),
+    "options": lambda n: "type A = +{" + rep(n, lambda i: "l%d : 1" % i, ",") + "}",
+    "branches": lambda n: "prc[a] : 1 = case b (" + rep(n, lambda i: "l%d<x> => close self" % i, "|") + ")",
+    "parens": lambda n: "prc[a] : 1 = " + "(" * n + "close self" + ")" * n,
+    "prints": lambda n: "prc[a] : 1 = " + "print l; " * n + "close self",
+    "tensor": lambda n: "type A = " + " * ".join(["1"] * n),
+    "typeleft": lambda n: "type A = " + "(" * n + "1" + " * 1)" * n,
+    "label": lambda n: "prc[" + "a" * (8 * n) + "] : 1 = close self",
+    "comment": lambda n: "/*" + "* /" * (4 * n) + "*/ prc[a] : 1 = close self",
+    "linecomments": lambda n: "// c\n" * (4 * n) + "prc[a] : 1 = close self",
+    "whitespace": lambda n: " \n\t" * (8 * n) + "prc[a] : 1 = close self",
+    "unterminated": lambda n: "prc[a] : 1 = close self /*" + "x" * (8 * n),
+    "illegal_tail": lambda n: "prc[a] : 1 = close self @" + "x y " * (4 * n),
+}
+# F19: families that go through a right-recursive list rule whose action prepends with a full copy
+F19_FAMILIES = {"decls", "types", "funs", "names", "callargs", "params", "assume", "options"}
+
+
+def garbage(rng_seed, n):
     import random
     rng = random.Random(rng_seed)
-    n = 4000
-    return [
-        ("big:parens", "big", "prc[a] : 1 = " + "(" * n + "close self" + ")" * n),
-        ("big:label", "big", "prc[" + "a" * (8 * n) + "] : 1 = close self"),
-        ("big:decls", "big", "\n".join("prc[p%d] : 1 = close self" % i for i in range(n))),
-        ("big:comment", "big", "/*" + "* /" * (4 * n) + "*/ prc[a] : 1 = close self"),
-        ("big:type", "big", "type A = " + " * ".join(["1"] * n)),
-        ("big:typeleft", "big", "type A = " + "(" * n + "1" + " * 1)" * n),
-        ("big:prints", "big", "prc[a] : 1 = " + "print l; " * n + "close self"),
-        ("big:garbage", "big", "".join(rng.choice("()[]<>;:,.|+-*&{}1 ax") for _ in range(8 * n))),
-        ("big:unterminated", "big", "prc[a] : 1 = close self /*" + "x" * (8 * n)),
-    ]
+    return "".join(rng.choice("()[]<>;:,.|+-*&{}1 ax") for _ in range(8 * n))
+
+
+GROWTH_N = {"quick": 250, "thorough": 2000}
+
+
+def measure_growth(b, tier):
+    """run every family at sizes n and 4n (own probe process per family, 60 s watchdog);
+    returns {family: (n, ms_n, ms_4n, verdicts)}"""
+    n = GROWTH_N[tier if tier in GROWTH_N else "quick"]
+    res = {}
+    for fam, g in FAMILIES.items():
+        cases = [("%s:%d" % (fam, n), "growth", g(n)), ("%s:%d" % (fam, 4 * n), "growth", g(4 * n))]
+        out = S.run_tool(b.probe, "parsetime", cases, timeout=200)
+        row = []
+        for i, _, _ in cases:
+            o = out.get(i, "MISSING").split("\t")
+            if len(o) == 2 and o[0].isdigit():
+                row.append((int(o[0]), o[1]))
+            else:
+                row.append((None, o[0]))
+        res[fam] = (n, row[0], row[1], len(cases[1][2]))
+    return res
+
+
+def superlinear(row):
+    """(n, (us_n, v), (us_4n, v), bytes) -> reason or None.  Linear growth is a factor 4; a factor
+    above 8 on a measurement above 100 ms (minimum of three runs) is reported: a ratio is robust
+    against a uniformly slow machine, the minimum against spikes."""
+    n, (m1, v1), (m4, v4), _ = row
+    if m1 is None or m4 is None:
+        return "no result within the 60 s watchdog (%s / %s)" % (v1, v4)
+    if m4 > 100000 and m4 > 8 * max(m1, 3000):
+        return "time grows by a factor %.1f when the input grows by 4 (%.1f ms -> %.1f ms)" % (m4 / max(m1, 1), m1 / 1000, m4 / 1000)
+    return None
 
 
 def run(b, ps, tier, seed):
     n_mut, n_rand = (1500, 1500) if tier == "quick" else (60000, 60000)
     cases = list(T.stream(seed, n_mut, n_rand))
-    cases += big_inputs(seed)
+    cases.append(("big:garbage", "big", garbage(seed, 4000)))
     violations = []
     t0 = time.time()
     impl, model, _ = ({}, {}, [])
@@ -69,6 +120,25 @@ def run(b, ps, tier, seed):
             {"property": PROP, "kind": "parse-not-total", "input_hex": small.encode("latin1", "replace").hex(),
              "input_text": small[:2000], "observed": obs[:300], "mutation": k,
              "replay_cmd": "bin/check C11 --replay <this file>"}))
+    # promptness: time must grow linearly with the size of one construct
+    growth = measure_growth(b, tier) if not b.probe_error else {}
+    known_lines, f19 = [], []
+    kf = {r.get("id"): r for r in C.known_findings(PROP)}
+    for fam, row in sorted(growth.items()):
+        why = superlinear(row)
+        if not why:
+            continue
+        if fam in F19_FAMILIES and "F19" in kf:
+            f19.append("%s: %s" % (fam, why))
+            continue
+        text = FAMILIES[fam](row[0] * 4)
+        violations.append(C.Violation(
+            "ParseString is not prompt on the construct family '%s': %s" % (fam, why),
+            {"property": PROP, "kind": "superlinear-parse-time", "family": fam, "n": row[0] * 4,
+             "input_hex": text.encode("latin1", "replace").hex() if len(text) < 400000 else "", "input_text": text[:300],
+             "measured_us": {"n": row[1][0], "4n": row[2][0]}, "replay_cmd": "bin/check C11 --replay <this file>"}))
+    if f19:
+        known_lines.append(kf["F19"].get("line", "known: F19") + " [measured now: " + "; ".join(f19) + "]")
     # model side: by theorem the model never hangs; an EXN / HANG of the model means the model or its
     # fuel is wrong (reported as unproven, not as a failing input)
     model_bad = [(i, model[i]) for i, _, _ in cases if model and outcome_class(model.get(i, "MISSING")) != "result"]
@@ -78,22 +148,28 @@ def run(b, ps, tier, seed):
         "distinct_nontrivial": len({t for _, k, t in cases if len(t) > 8}),
         "rule": "texts = every examples/*.grits and every program snippet found in the repository's test files, "
                 "seeded single/double edits of them (token insert/delete/duplicate/swap, illegal characters, NUL, "
-                "truncation, comment openers/closers, byte replacement), random byte strings, token soup and 9 large "
-                "inputs (up to 32 kB, nesting depth 4000); non-trivial = longer than 8 bytes, distinct by content",
+                "truncation, comment openers/closers, byte replacement), random byte strings, token soup, one 32 kB garbage text, "
+                "and %d growth families (one construct repeated n and 4n times, n = %d: declarations, name lists, choice options, "
+                "branches, nesting, sequences, long labels/comments/whitespace, unterminated comment, illegal tail) timed (minimum of 3 runs) under a 60 s watchdog; "
+                "non-trivial = longer than 8 bytes, distinct by content" % (len(FAMILIES), GROWTH_N[tier if tier in GROWTH_N else "quick"]),
         "samples": [{"id": i, "kind": k, "text": t[:120], "impl": impl.get(i, "")[:60]} for i, k, t in cases[400:406]],
         "input_kinds": kinds,
         "distinct_texts": distinct,
         "impl_outcomes": {c: sum(1 for i, _, _ in cases if outcome_class(impl.get(i, "MISSING")) == c) for c in {outcome_class(v) for v in impl.values()}} if impl else {},
         "model_nonresults": model_bad[:5],
+        "growth_us": {fam: {"n": row[0], "us_n": row[1][0], "us_4n": row[2][0], "bytes_4n": row[3], "verdict": row[2][1],
+                            "superlinear": superlinear(row)} for fam, row in sorted(growth.items())},
         "suite_wall_s": round(dt, 1),
     }
     if model_bad:
         violations.append(C.Violation("the model itself does not produce a result on %d inputs (fuel / model defect)" % len(model_bad),
                                       {"property": PROP, "kind": "unproven", "no_longer_checks": [{"what": "model parse_string totality on generated inputs", "detail": str(model_bad[:3])}]},
                                       found_input=False))
-    return {"violations": violations, "known": [], "coverage": cov,
+    cov["evaluations"] += 2 * len(growth)
+    return {"violations": violations, "known": known_lines, "coverage": cov,
             "assumptions": ["bufio/utf8 decoding is outside the model (bytes >= 0x80 are one class)",
-                            "wall-clock promptness is checked by a 5 s watchdog per input; the theorem bounds steps, not time",
+                            "the theorem bounds steps (scanner reads, driver iterations), not time: the cost of one step of the Go code (semantic actions) is measured, "
+                            "by timing growth families at n and 4n (factor > 8 above 0.1 s = superlinear) and a 5 s watchdog per stream input",
                             "the error-recovery loop of the goyacc driver is modelled as abort (no state shifts `error`: checked on the regenerated tables)"],
             "trusted_extra": ["translator translate/lrtables.py (syntactic: array literals and constants of parser.y.go)",
                               "translator `probe scantables` (go/ast keyword literals + behavioural dump of the 256 byte classes)",
@@ -102,6 +178,17 @@ def run(b, ps, tier, seed):
 
 def replay(b, path):
     r = json.load(open(path))
+    if r.get("kind") == "superlinear-parse-time":
+        fam, n = r["family"], r["n"] // 4
+        cases = [("a", "", FAMILIES[fam](n)), ("b", "", FAMILIES[fam](4 * n))]
+        out = S.run_tool(b.probe, "parsetime", cases, timeout=200)
+        row = []
+        for i in ("a", "b"):
+            o = out.get(i, "MISSING").split("\t")
+            row.append((int(o[0]), o[1]) if len(o) == 2 and o[0].isdigit() else (None, o[0]))
+        why = superlinear((n, row[0], row[1], 0))
+        print("family %s: n=%d -> %s us, 4n -> %s us: %s" % (fam, n, row[0][0], row[1][0], why or "linear"))
+        return 1 if why else 0
     if "input_hex" not in r:
         print("no concrete input in this replay file:", r.get("no_longer_checks"))
         return 1
